@@ -153,7 +153,7 @@ def _call_sites_pass_floor(ctx, chk, rule, q, meths):
 def role_table(ctx, chk, rule, q, best, worst):
     """strategies = [None]*n; P1 -> best, P2 -> worst, stored at state.idx for the whole list."""
     f = ctx.func(q)
-    sx = SymX(ctx, f, "Solver", inline_depth=2).run()      # a shared private helper is judged by its content
+    sx = SymX(ctx, f, "Solver", inline_depth=2, unroll_literals=True).run()      # a shared private helper / a (player, method) table is judged by its content
     ret = sx.ret
     where = f.where()
     if ret[0] != "res":
@@ -182,7 +182,8 @@ def role_table(ctx, chk, rule, q, best, worst):
 
     def cond(player):
         return simp(("cmp", "==", ("attr", st, "player"), C(player)))
-    u = L.update[v]
+    from ..symx import path_simp
+    u = path_simp(L.update[v])
     want1 = simp(("ite", cond("Player 1"), entry(best), simp(("ite", cond("Player 2"), entry(worst), acc))))
     want2 = simp(("ite", cond("Player 2"), entry(worst), simp(("ite", cond("Player 1"), entry(best), acc))))
     if u in (want1, want2):
